@@ -42,6 +42,9 @@ impl Engine for NoSimd {
         truncated_size: usize,
         skew_delta: usize,
     ) {
+        #[cfg(feature = "verif-hooks")]
+        crate::verif_hooks::trace(crate::verif_hooks::ISA_PORTABLE, crate::verif_hooks::PRIM_FFT);
+
         self.fft_private(data, pos, size, truncated_size, skew_delta);
     }
 
@@ -53,10 +56,16 @@ impl Engine for NoSimd {
         truncated_size: usize,
         skew_delta: usize,
     ) {
+        #[cfg(feature = "verif-hooks")]
+        crate::verif_hooks::trace(crate::verif_hooks::ISA_PORTABLE, crate::verif_hooks::PRIM_IFFT);
+
         self.ifft_private(data, pos, size, truncated_size, skew_delta);
     }
 
     fn mul(&self, x: &mut [[u8; 64]], log_m: GfElement) {
+        #[cfg(feature = "verif-hooks")]
+        crate::verif_hooks::trace(crate::verif_hooks::ISA_PORTABLE, crate::verif_hooks::PRIM_MUL);
+
         let lut = &self.mul16[log_m as usize];
 
         for x_chunk in x.iter_mut() {
